@@ -177,6 +177,16 @@ let () =
   Ops.register "sc_extend_quantifier_scope" (fun e -> of_formula (C.extend_quantifier_scope (formula e)));
   Ops.register "sc_simplify_transitive_equality" (fun e -> of_opt_formula (C.simplify_transitive_equality_opt (formula e)));
   Ops.register "simplify_cls" simplify_cls;
+  (* hand-built trees outside the parser's image, kept apart from the ops on real formulas:
+     (which F), which = rdn|sdv|rqd|eqs|ste or a strategy name *)
+  Ops.register "sc_outside_parser" (fun e ->
+      match e with
+      | L [ A "rdn"; f ] -> of_formula (C.remove_double_negation (formula f))
+      | L [ A "sdv"; f ] -> of_opt_formula (C.substitute_defined_variables_opt (formula f))
+      | L [ A "rqd"; f ] -> of_opt_formula (C.restrict_quantifier_domain_opt (formula f))
+      | L [ A "eqs"; f ] -> of_formula (C.extend_quantifier_scope (formula f))
+      | L [ A "ste"; f ] -> of_opt_formula (C.simplify_transitive_equality_opt (formula f))
+      | _ -> simplify_cls e);
   Ops.register "sem_simplify_cls" sem_simplify_cls;
   Ops.register "sem_simplify_full_classic" sem_simplify_cls
 let init () = ()
